@@ -98,6 +98,32 @@ class TwoMotors(Base):
 
 
 @register
+class LongMove(Base):
+    """A slow move started BEFORE a checkpoint and waited for after it: a pause in between stops the motor, nothing replays the set."""
+
+    id = "longmove"
+
+    def devices(self, ctx):
+        m = FakeMotor(ctx, "m", is_async=self.a, move=("delay", 3.0))
+        return {"m": m, "det": FakeDet(ctx, "det", is_async=self.a, stageable=False)}
+
+    def plan(self, d):
+        import bluesky.plan_stubs as bps
+
+        def plan():
+            yield from bps.open_run()
+            yield from bps.abs_set(d["m"], 1, group="lm")
+            yield from bps.checkpoint()
+            yield from bps.trigger_and_read([d["det"]])
+            yield from bps.checkpoint()
+            yield from bps.trigger_and_read([d["det"]])
+            yield from bps.wait(group="lm")
+            yield from bps.close_run()
+
+        return plan()
+
+
+@register
 class BareCp(Base):
     """A run the plan never closes, with a non-resumable section: the engine closes it, also after a FailedPause."""
 
